@@ -47,6 +47,9 @@ pub struct Twin {
     /// pass-through banks [kamino g0, kamino g1, solend g0, solend g1, drift g0, drift g1]
     /// (Kamino and Drift on mint A, Solend on mint B)
     pub venue: Option<[usize; 6]>,
+    /// accounts of the user in group 0 whose only collateral is one pass-through position each
+    /// (kamino, solend, drift), each with a small debt in bank B
+    pub vaccts: Vec<usize>,
 }
 
 /// Two structurally identical groups over the same mints (so that every account of group 0 has a
@@ -90,13 +93,22 @@ pub async fn build_twin_v(seed: u64, r: &mut R, with_venue: bool) -> (World, Twi
     let mut venue = None;
     if with_venue {
         let mut vb = [0usize; 4];
+        // in half of the worlds the venue banks use the Switchboard variant of their oracle setup
+        let swb_world = r.gen_bool(0.5);
+        let swb_px = |usd: f64| SwbPx { value: (usd * 1e18) as i128, std_dev: 0, last_update: now };
         for (gi, g) in [g0, g1].into_iter().enumerate() {
             let mut kc = marginfi::state::kamino::KaminoConfigCompact::default();
+            if swb_world {
+                w.venue_swb_next = Some(swb_px(1.0));
+            }
             kc.deposit_limit = u64::MAX;
             kc.total_asset_value_init_limit = 0;
             kc.oracle_max_age = 600;
             vb[gi * 2] = w.add_bank_kamino(g, ma, kc, PythPx::simple(1_000_000, -6, now), 1_050_000_000_000, 1_000_000_000_000, 7).await.expect("kamino bank");
             let mut sc = marginfi::state::solend::SolendConfigCompact::default();
+            if swb_world {
+                w.venue_swb_next = Some(swb_px(20.0));
+            }
             sc.deposit_limit = u64::MAX;
             sc.total_asset_value_init_limit = 0;
             sc.oracle_max_age = 600;
@@ -105,6 +117,9 @@ pub async fn build_twin_v(seed: u64, r: &mut R, with_venue: bool) -> (World, Twi
         let mut db = [0usize; 2];
         for (gi, g) in [g0, g1].into_iter().enumerate() {
             let mut dc = marginfi::state::drift::DriftConfigCompact::default();
+            if swb_world {
+                w.venue_swb_next = Some(swb_px(1.0));
+            }
             dc.deposit_limit = u64::MAX;
             dc.total_asset_value_init_limit = 0;
             dc.oracle_max_age = 600;
@@ -113,7 +128,7 @@ pub async fn build_twin_v(seed: u64, r: &mut R, with_venue: bool) -> (World, Twi
         // order: [kamino g0, kamino g1, solend g0, solend g1, drift g0, drift g1]
         venue = Some([vb[0], vb[2], vb[1], vb[3], db[0], db[1]]);
     }
-    let t = Twin { g0, g1, a0: idx[0], b0: idx[1], a1: idx[2], b1: idx[3], user, acct0, acct1, lender0, liquidator0, venue };
+    let mut t = Twin { g0, g1, a0: idx[0], b0: idx[1], a1: idx[2], b1: idx[3], user, acct0, acct1, lender0, liquidator0, venue, vaccts: vec![] };
     // liquidity and positions in both groups
     for (l, a, b) in [(lender0, t.a0, t.b0), (lender1, t.a1, t.b1)] {
         let k = w.auth_of(l);
@@ -143,6 +158,20 @@ pub async fn build_twin_v(seed: u64, r: &mut R, with_venue: bool) -> (World, Twi
                 let o = w.raw_send(&[i], &[&k]).await;
                 assert!(o.ok(), "venue deposit in twin world failed: {}", o.err_string());
             }
+        }
+    }
+    if let Some(vb) = t.venue {
+        // one account per venue whose health rests on the pass-through position alone
+        let k = w.auth_of(acct0);
+        for b in [vb[0], vb[2], vb[4]] {
+            let va = w.add_account(g0, user).await;
+            let i = w.ix_venue_deposit(va, b, k.pubkey(), w.ta_of(va, b), 5_000_000);
+            let o = w.raw_send(&[i], &[&k]).await;
+            assert!(o.ok(), "venue-only account deposit failed: {}", o.err_string());
+            let i = w.ix_borrow(va, t.b0, k.pubkey(), w.ta_of(va, t.b0), 1000);
+            let o = w.raw_send(&[i], &[&k]).await;
+            assert!(o.ok(), "venue-only account borrow failed: {}", o.err_string());
+            t.vaccts.push(va);
         }
     }
     // some accrued fees so that collect/withdraw fees have something to move
@@ -267,6 +296,28 @@ pub async fn cases(w: &mut World, t: &Twin) -> Vec<Case> {
                 let _ = vk;
                 v.push(Case { name: format!("{}_{}", vname, if dep { "deposit" } else { "withdraw" }), ixs: vec![i], target: 0, signers: vec![clone_kp(&auth)], signer_key: Some(ak), entitled: vec!["authority"], subs });
             }
+        }
+    }
+    // ---- valuation accounts of a pass-through position: the reserve / spot market that prices it
+    // must be the bank's own (here the collateral is the account's only one, so a refused price
+    // means a refused borrow)
+    if let Some(vb) = t.venue {
+        for (i, (vname, b_own, b_twin)) in [("kamino", vb[0], vb[1]), ("solend", vb[2], vb[3]), ("drift", vb[4], vb[5])].into_iter().enumerate() {
+            let va = match t.vaccts.get(i) {
+                Some(v) => *v,
+                None => continue,
+            };
+            let ta = w.ta_of(va, t.b0);
+            let ixn = w.ix_borrow(va, t.b0, ak, ta, 1000);
+            let (own, twin) = (w.banks[b_own].oracle.accounts(), w.banks[b_twin].oracle.accounts());
+            let mut subs = vec![];
+            if let Some(slot) = ixn.accounts.iter().rposition(|m| m.pubkey == own[1]) {
+                subs.push((slot, "collateral's venue reserve->reserve of the foreign group's bank (same mint)".into(), twin[1]));
+            }
+            if let Some(slot) = ixn.accounts.iter().rposition(|m| m.pubkey == own[0]) {
+                subs.push((slot, "collateral's price account->price account of the foreign group's bank".into(), twin[0]));
+            }
+            v.push(Case { name: format!("borrow_against_{}_collateral", vname), ixs: vec![ixn], target: 0, signers: vec![clone_kp(&auth)], signer_key: Some(ak), entitled: vec!["authority"], subs });
         }
     }
     // ---- liquidation family (needs an unhealthy account: done by the caller through a price shock)
